@@ -69,6 +69,21 @@ func Gen(t *rapid.T) *Case {
 	return c
 }
 
+// GenRaw is Gen plus, in a third of the cases, raw upcasters that return a
+// type other than their declared target (any of the names, so the walk may
+// also be led back to a type it has already passed).
+func GenRaw(t *rapid.T) *Case {
+	c := Gen(t)
+	if len(c.Edges) > 0 && rapid.IntRange(0, 2).Draw(t, "deviating") == 0 {
+		n := rapid.IntRange(1, 2).Draw(t, "ndev")
+		for i := 0; i < n; i++ {
+			ei := rapid.IntRange(0, len(c.Edges)-1).Draw(t, "devEdge")
+			c.Edges[ei].Ret = 1 + rapid.IntRange(0, NNames-1).Draw(t, "devTo")
+		}
+	}
+	return c
+}
+
 func GenTyped(t *rapid.T) *TypedCase {
 	c := &TypedCase{Only12: rapid.IntRange(0, 3).Draw(t, "only12") == 0}
 	n := rapid.IntRange(1, 8).Draw(t, "n")
